@@ -3,7 +3,7 @@ from engine.facts import CannotDecide, callee_is, path_matches
 from engine.prov import const_int
 from engine import cfg
 from engine.asyncs import awaits, await_of_call, base_local
-from .common import (Table, client_dispatch_poll, reachable_local_fns, norm_path, guarded_by_bool, guarded_by_variant, sends_cancel_id, find_calls, message_send_sites)
+from .common import (deep_roots, Table, client_dispatch_poll, reachable_local_fns, norm_path, guarded_by_bool, guarded_by_variant, sends_cancel_id, find_calls, message_send_sites)
 
 EXTRA_CONFIGS = ('default', 'tokio1', 'serde1', 'serde-transport')   # feature configurations re-analysed in the thorough tier
 META = {
@@ -89,6 +89,9 @@ def run(ctx):
         rc = P.root(P.operand(drop, ct['args'][0], at=cb))
         R.ob('C03.drop', ('Drop for ResponseGuard', 'closes its own receiver'), bool(rc) and all(r == ('param', drop.id, 1) for r, _ in rc), 'the receiver closed is the guard\'s', [drop.loc(ct)])
 
+    from .common import cancel_always_enqueues
+    cancel_always_enqueues(ctx, 'C03.drop')
+
     # ------------------------------------------------------------------ 3. disarm only after the response await
     disarm = []
     for f in F.fns.values():
@@ -120,6 +123,7 @@ def run(ctx):
     R.count('functions_analysed', len(reach) + len(bodies) + 2)
     sender_field = F.field_of_type('client::DispatchRequest', lambda t: 'oneshot::Sender' in t)
     qrecv = [(g, bb, t) for g in reach for bb, t in g.calls() if callee_is(t, 'mpsc::Receiver::poll_recv') and 'DispatchRequest' in (t.get('self_ty') or '') + str(t.get('arg_tys'))]
+    n_hand = 0
     for g, bb, t in qrecv:
         item = ('call', g.id, bb)
         # aggregates that wrap the whole dequeued request (hand it onwards)
@@ -132,6 +136,7 @@ def run(ctx):
                         hand.append((i, s))
         if not hand:
             continue  # this poll_recv site does not forward requests (e.g. the terminal drain)
+        n_hand += len(hand)
         for i, s in hand:
             pred = lambda x: any(P.is_call(r, 'oneshot::Sender::is_closed') and
                                  all(rr == item and sender_field in P.fpath(pp) for rr, pp in P.root(P.args_of(r)[0])) for r, _ in P.root(x))
@@ -149,6 +154,20 @@ def run(ctx):
     R.ob('C03.ctor', ('ClientMessage', 'constructor sites'), len(reqs) == 1 and len(cans_all) == 1 and len(rsend) == 1 and len(csend) == 1
          and all(any(g.id == x.id for x in reach) for g, _, _, _ in reqs + cans_all),
          'requests and cancels are each built at one site and written at one site inside the dispatch', [g.loc(s) for g, _, _, s in reqs + cans_all])
+    R.ob('C03.closedcheck', ('dispatch poll', 'a site hands dequeued requests on'), n_hand >= 1,
+         'the closed-check rule applies to at least one site that forwards a whole dequeued request', [g.loc(t) for g, _, t in qrecv] or [poll.loc(poll.d)])
+    for g, sbb, st_, agg in rsend:
+        # the request written is one dequeued in this very activation (so it went through the closed check just now): it is not taken from a place where it
+        # was parked across polls, where the caller may have abandoned it in the meantime
+        for a in st_['args'][1:]:
+            rs = deep_roots(P, P.operand(g, a, at=sbb))
+            src = [(r, p) for r, p in rs if P.unbound(r)[0] in ('call', 'param')]
+            fresh = bool(src) and all(P.is_call(r, 'mpsc::Receiver::poll_recv') or P.is_call(r, 'context::Context::current', 'Instant::now', 'trace::Context::new_child', 'Span::current')
+                                      or (P.unbound(r)[0] == 'call' and not callee_is(P.call_term(P.unbound(r)), 'Option::take', 'mem::take', 'mem::replace', 'Option::replace', 'VecDeque::pop_front', 'Vec::pop'))
+                                      for r, p in src) and not any(r[0] == 'param' for r, _ in src)
+            R.ob('C03.closedcheck', ('dispatch poll', 'request written in the activation it was dequeued'), fresh,
+                 'every part of the Request message written comes from the item just taken from the request queue, never from a request parked in the dispatch across polls',
+                 [g.loc(st_)], str(sorted({P.describe(r) for r, _ in src}))[:300])
     for g, sbb, st_, agg in rsend:
         ins = [(bb, t) for bb, t in g.calls() if F.callee_fn(t) is insert_m]
         ok = len(ins) == 1 and cfg.dominates(g, ins[0][0], sbb) and ins[0][0] != sbb
@@ -209,7 +228,6 @@ def run(ctx):
          sorted({s_ for k in cb for s_ in wres['close']['viol'][k]}), str([k[1:] for k in cb]))
     # the Cancel write's failure is terminal (the "connection lost" exemption)
     for g, sbb, st_, agg in csend:
-        from .common import deep_roots
         rets = deep_roots(P, P._local_whole(g, 0), inline=False)
         ok = any(P.unbound(r) == ('call', g.id, sbb) and (('t', '?err') in p or ('t', 'errval') in p or ('v', 'Err') in p) for r, p in rets)
         R.ob('C03.cancel', ('dispatch poll', 'a failed cancel write ends the dispatch'), ok,
